@@ -32,6 +32,18 @@ def tame(g: G) -> str:
     return g.pick(_TAME)
 
 
+def fval(g: G) -> float:
+    """float/double values over many decades (both runners print |x| < 1e-6 and >= 1e16 through an
+    exponent-quantised Decimal: "0", "10000000000000000"), negative, and integers written as floats"""
+    form = g.i(0, 9)
+    if form == 0:
+        return float(g.i(-5, 1000))
+    if form == 1:
+        return g.pick([0.0, 1.0, -1.0, 0.5, 100000.0, 1e-06, 1e-07, 1e16, 1e15])
+    mant = g.pick(["1", "1.5", "-2.25", "9.99", "4", "-1", "7.125", "3", "-6.0221", "1.2345678"])
+    return float(f"{mant}e{g.i(-12, 20)}")
+
+
 def hostile(g: G, allow_empty=True) -> str:
     n = g.weighted([(0, 2 if allow_empty else 0), (1, 6), (2, 5), (3, 3), (5, 1)])
     return "".join(g.pick(_PIECES) for _ in range(n))
@@ -70,8 +82,9 @@ def gen_tool(g: G):
     n_in = g.i(1, 6)
     for k in range(n_in):
         name = g.pick(["a", "b", "in", "x"]) + str(k)
-        kind = g.weighted([("string", 8), ("int", 3), ("double", 1), ("boolean", 3), ("File", 2), ("enum", 1),
-                           ("string[]", 4), ("int[]", 2), ("File[]", 1), ("record", 2), ("string[]-inner", 2)])
+        kind = g.weighted([("string", 8), ("int", 3), ("double", 4), ("boolean", 3), ("File", 2), ("enum", 1),
+                           ("string[]", 4), ("int[]", 2), ("double[]", 2), ("File[]", 1), ("record", 2),
+                           ("string[]-inner", 2)])
         optional = g.p(0.2)
         vf = None
         no_null = False
@@ -85,8 +98,11 @@ def gen_tool(g: G):
             vf = g.pick(["$(self + 1)", '$("n" + self)'])
             val = g.pick([0, 1, -1, 42, 2147483647, -7])
         elif kind == "double":
-            t = "double"
-            val = g.pick([1.5, -0.25, 3.0, 100.125, 0.5])
+            t = g.pick(["double", "double", "float"])
+            val = fval(g)
+        elif kind == "double[]":
+            t = {"type": "array", "items": "double"}
+            val = [fval(g) for _ in range(g.i(0, 4))]
         elif kind == "boolean":
             t = "boolean"
             val = g.p(0.6)
@@ -162,8 +178,14 @@ def gen_tool(g: G):
                         val = [g.pick(_SAFE_UNQUOTED) for _ in range(len(val))]
                     if decl["inputBinding"].get("prefix") in ("--q'", "--with space"):
                         decl["inputBinding"]["prefix"] = "--p"
+        if kind == "double" and g.p(0.3):
+            decl["default"] = fval(g)  # a default in the document goes through the same rendering
+            if g.p(0.6):
+                val = None
         inputs[name] = decl
-        if optional and not no_null and g.p(0.5):
+        if val is None and "default" in decl:
+            pass  # job omits the input: the default applies
+        elif optional and not no_null and g.p(0.5):
             if g.p(0.5):
                 job[name] = None
         else:
